@@ -148,8 +148,12 @@ def _module(M, bi, qs, key, **kw):
     right = M(biort=bi, qshift=qs, **kw)
     import os
     from .impl_dwt import _u
-    if os.environ.get('VERIF_NO_TWINS') == '1' or _u(key, 'adopt') >= 0.34:
+    u = _u(key, 'adopt')
+    if os.environ.get('VERIF_NO_TWINS') == '1' or u >= 0.45:
         return right
+    if u >= 0.34:
+        from .impl_dwt import deferred
+        return deferred(lambda: M(biort=bi, qshift=qs, **kw), right)
     try:
         from pytorch_wavelets.dtcwt.coeffs import biort as _b, qshift as _q
         fwd = M.__name__ == 'DTCWTForward'
